@@ -18,7 +18,7 @@ TARGETS = {
 PROPS = {
     "C14": dict(
         targets=["c14_params", "c14_equiv_amg", "c14_equiv_solver", "c14_equiv_mpi", "c14_probe_make_solver", "c14_probe_amg", "c14_probe_deflated", "c14_probe_ilut"],
-        shard_mult={"quick": 6},
+        shard_mult={"quick": 6, "thorough": 6},
         level="exploration",
         rule="props/c14_components.hpp lists every params struct of the serial library with its fields (key, C++ type from the member pointer, value class). "
              "A case picks a struct (44 structs incl. composites amg/make_solver/deflated_solver/cpr/cpr_drs/schur/as_preconditioner and the run-time wrappers), a random subset of its fields "
